@@ -39,90 +39,186 @@ GUARDS = {'ij-1': {'ij%nx>0'}, 'ij-nx': {'ij>=nx'}, 'ij-nx-1': {'ij%nx>0', 'ij>=
 
 
 def check_neighbours(prog, rep, m):
+    """G1 / G2 on the interpreted one-pass labelling: for a pixel at the corners, edges and interior of a 5-column raster
+    and every set of matching neighbours that the property needs (none, a single W / S / SW / SE neighbour, and the pairs
+    that are not adjacent to each other), the stored region id is the matching neighbour's id / the lower of the two
+    (with a merge of the pair) / a fresh id, and a neighbour outside the raster or masked out never joins."""
+    from fractions import Fraction as Fr
+    from ..kai import cond_repr
+    from ..kutil import CannotEvaluate, eval_cond_full, evaluate, guard_atoms
+    from ..sym import Sym, walk_atoms
     f = m.funcs.get('_calculate_regions')
     if f is None:
         raise AnalysisIncomplete('_calculate_regions not found')
     entry = 'polygonize labelling'
-    pm = parent_map(f.node)
-    found = {}
-    # expressions that decide a match: assignments to matches_X and `if (not matches_X and ...)` tests
-    cands = []
-    for n in f.own_nodes():
-        if isinstance(n, ast.Assign) and isinstance(n.targets[0], ast.Name) and n.targets[0].id.startswith('matches_') \
-                and isinstance(n.value, ast.BoolOp):
-            cands.append((n.targets[0].id, n.value, n, None))
-        if isinstance(n, ast.If) and isinstance(n.test, ast.BoolOp) and '_is_close' in T(n.test) and 'matches_' in T(n.test):
-            which = [s.targets[0].id for s in n.body if isinstance(s, ast.Assign) and isinstance(s.targets[0], ast.Name)
-                     and s.targets[0].id.startswith('matches_')]
-            cands.append((which[0] if which else '?', n.test, n, n))
-    for name, expr, node, ifnode in cands:
-        offs = offsets_in(expr, {'mask', 'values'})
-        allo = set().union(*offs.values()) if offs else set()
-        site = '%s: %s' % (name, T(expr)[:110])
-        if len(allo) != 1:
-            rep.add('G1', f, entry, site, node.lineno, False, 'mask and value are read at different neighbours: %s' % offs)
-            continue
-        off = next(iter(allo))
-        conj = {T(v) for v in expr.values} if isinstance(expr, ast.BoolOp) else set()
-        # guards may also come from enclosing ifs
-        enc = set()
-        p = pm.get(node)
-        while p is not None:
-            if isinstance(p, ast.If):
-                enc |= {T(v) for v in (p.test.values if isinstance(p.test, ast.BoolOp) else [p.test])}
-            p = pm.get(p)
-        need = GUARDS.get(off)
-        okg = need is not None and need <= (conj | enc)
-        okm = ('(maskisNoneormask[%s])' % off) in conj or ('maskisNoneormask[%s]' % off) in conj
-        okv = any(c in ('_is_close(values[ij],values[%s])' % off, '_is_close(values[%s],values[ij])' % off) for c in conj)
-        # region read with the same offset
-        suffix = name.split('_')[-1]
-        regs = []
-        if ifnode is not None:
-            regs = [T(s.value) for s in ifnode.body if isinstance(s, ast.Assign) and T(s.targets[0]) == 'region_' + suffix]
-        else:
-            for n2 in f.own_nodes():
-                if isinstance(n2, ast.If) and T(n2.test) == name:
-                    regs += [T(s.value) for s in n2.body if isinstance(s, ast.Assign) and T(s.targets[0]) == 'region_' + suffix]
-        okr = regs == ['regions[%s]' % off]
-        found[off] = True
-        rep.add('G1', f, entry, site, node.lineno, okg and okm and okv and okr,
-                'neighbour at flat offset %s: domain guard %s (%s), mask read at the same offset (%s), value compared at the '
-                'same offset (%s), region id read at the same offset (%s, found %s)' % (off, sorted(need or []), okg, okm, okv, okr, regs))
-    rep.add('G1', f, entry, 'neighbour directions %s' % sorted(found), f.node.lineno,
-            set(found) == {'ij-1', 'ij-nx', 'ij-nx-1', 'ij-nx+1'}, 'W, S and (8-connectivity) SW, SE neighbours must be examined')
-    # SW/SE only under connectivity_8 and only when the axis neighbour did not match
-    c8 = [n for n in f.own_nodes() if isinstance(n, ast.If) and T(n.test) == 'connectivity_8andij>=nx']
-    ok = len(c8) == 1 and all(any(T(v).startswith('notmatches_') for v in i.test.values) for i in c8[0].body if isinstance(i, ast.If))
-    rep.add('G1', f, entry, 'diagonal neighbours only with 8-connectivity', f.node.lineno, ok, '')
-    # ---- G2 bookkeeping
+    k = interpret(prog, f, strict=False)
+    values, mask, conn8, nxp = f.params[0], f.params[1], f.params[2], f.params[3]
+    outs = [v for v, g in k.returns if isinstance(v, Arr)]
+    if len(outs) != 1:
+        rep.add('G1', f, entry, 'labelling', f.node.lineno, None, 'returned region array not identified')
+        return
+    regions = outs[0]
+    first = [st for st in k.stores if st.arr is regions and st.loops]
+    if not first:
+        rep.add('G1', f, entry, 'labelling', f.node.lineno, None, 'no per-pixel store')
+        return
+    L = first[0].loops[0]
+    IJ = Rat.sym(L.var)
+    NX = Rat.sym(nxp)
+    okloop = L.kind == 'range' and L.lo == Rat.const(0) and L.hi == NX * Rat.sym(f.params[4]) and L.step == Rat.const(1)
+    rep.add('G1', f, entry, 'labelling scan: for ij in range(nx * ny)', L.node.lineno, okloop, 'every pixel is labelled in raster order')
+    sts = [st for st in k.stores if st.arr is regions and st.loops and st.loops[0] is L and tuple(st.idx) == (IJ,)]
+    merges = [c for c in k.calls if c[0] == '_merge_regions' and c[4] and c[4][0] is L]
+    atoms = set()
+    for st in sts:
+        atoms |= guard_atoms(st.guards) | (walk_atoms(st.value) if isinstance(st.value, Rat) else set())
+    for c in merges:
+        atoms |= guard_atoms(c[2])
+        for a_ in c[1]:
+            if isinstance(a_, Rat):
+                atoms |= walk_atoms(a_)
+    dirs = {'W': Rat.const(-1), 'S': -NX, 'SW': -NX - Rat.const(1), 'SE': -NX + Rat.const(1)}
+
+    def at_offset(a, arr):
+        """direction name if atom a reads arr at ij + that direction's offset"""
+        if isinstance(a, App) and a.name in ('read', 'cell?') and a.args[0] == arr and len(a.args) >= 2:
+            for dn, off in dirs.items():
+                if a.args[1] == IJ + off:
+                    return dn
+            if a.args[1] == IJ:
+                return 'self'
+        return None
+    close = {}
+    for a in atoms:
+        if isinstance(a, App) and a.name.startswith('call:') and a.name.endswith('_is_close') and len(a.args) == 2:
+            d1, d2 = [at_offset(_single(x), values) if isinstance(x, Rat) else None for x in a.args]
+            dn = d2 if d1 == 'self' else d1 if d2 == 'self' else None
+            if dn in dirs:
+                close.setdefault(dn, []).append(a)
+            else:
+                close.setdefault('?', []).append(a)
+    rep.add('G1', f, entry, 'neighbour directions %s' % sorted(close), f.node.lineno, set(close) == set(dirs),
+            'the pixel value must be compared with exactly the W, S and (8-connectivity) SW, SE neighbours (flat offsets -1, -nx, '
+            '-nx-1, -nx+1)')
+    if set(close) != set(dirs):
+        return
+    maskat = {dn: [a for a in atoms if at_offset(a, mask) == dn] for dn in list(dirs) + ['self']}
+    regat = {dn: [a for a in atoms if at_offset(a, regions.name) == dn] for dn in dirs}
+    isnone = [a for a in atoms if isinstance(a, App) and a.name == 'is' and a.args[1] == Rat.atom(App('none', []))]
+    mods = [a for a in atoms if isinstance(a, App) and a.name == 'mod']
+    counter = [a for a in atoms if isinstance(a, Sym) and a.name.endswith(tuple('~loop%d' % i for i in range(1000))) and '~loop' in a.name]
+    opaque = [a for a in atoms if isinstance(a, App) and a.name == 'opaque']
+    c8 = Sym(conn8)
+    REG = {'W': 11, 'S': 12, 'SW': 13, 'SE': 14}
+    nxv = 5
+
+    def run(ij, M, masked_dirs, maskless, conn):
+        env = {Sym(L.var): Fr(ij), Sym(nxp): Fr(nxv), c8: Fr(conn)}
+        for a in isnone:
+            env[a] = Fr(1 if maskless else 0)
+        for a in mods:
+            env[a] = Fr(int(evaluate(a.args[0], env)) % int(evaluate(a.args[1], env)))
+        for dn in dirs:
+            for a in close[dn]:
+                env[a] = Fr(1 if dn in M else 0)
+            for a in maskat[dn]:
+                env[a] = Fr(0 if dn in masked_dirs else 1)
+            for a in regat[dn]:
+                env[a] = Fr(REG[dn])
+        for a in maskat['self']:
+            env[a] = Fr(1)
+        for a in counter:
+            env[a] = Fr(40)
+        for a in opaque:
+            env[a] = Fr(10**9)
+        val = None
+        for st in sts:
+            if all(eval_cond_full(g, env) for g in st.guards):
+                val = evaluate(st.value, env)
+        mg = []
+        for c in merges:
+            if all(eval_cond_full(g, env) for g in c[2]):
+                mg.append(tuple(sorted(int(evaluate(x, env)) for x in c[1][1:3] if isinstance(x, Rat))))
+        return (int(val) if val is not None else None), mg
+
+    def indomain(ij, dn):
+        i, j = ij % nxv, ij // nxv
+        return {'W': i > 0, 'S': j > 0, 'SW': i > 0 and j > 0, 'SE': i < nxv - 1 and j > 0}[dn]
+    scen = [set(), {'W'}, {'S'}, {'SW'}, {'SE'}, {'W', 'S'}, {'W', 'SE'}, {'SW', 'S'}, {'SW', 'SE'}]
+    bad = []
+    und = None
+    n_cases = 0
+    try:
+        for ij in (0, 2, 4, 5, 7, 9):
+            for M in scen:
+                for conn in (1, 0):
+                    for maskless in (1, 0):
+                        for masked in ([set()] + ([{d_} for d_ in M] if not maskless else [])):
+                            n_cases += 1
+                            eff = {d_ for d_ in M if indomain(ij, d_) and d_ not in masked and (conn or d_ in ('W', 'S'))}
+                            got, mg = run(ij, M, masked, maskless, conn)
+                            left = [d_ for d_ in ('W', 'SW') if d_ in eff]
+                            right = [d_ for d_ in ('S', 'SE') if d_ in eff]
+                            ids = sorted(REG[d_] for d_ in left[:1] + right[:1])
+                            if not ids:
+                                want, wantm = 41, []
+                            elif len(ids) == 1:
+                                want, wantm = ids[0], []
+                            else:
+                                want, wantm = ids[0], [tuple(ids)]
+                            if got != want or mg != wantm:
+                                bad.append('pixel %d of a 5-wide raster, matching %s%s%s, %d-connectivity: region %s merges %s, expected %s %s' % (
+                                    ij, sorted(M), (' masked ' + str(sorted(masked))) if masked else '', ' (no mask)' if maskless else '',
+                                    8 if conn else 4, got, mg, want, wantm))
+    except CannotEvaluate as e:
+        und = str(e)
+    rep.add('G1', f, entry, 'a neighbour joins only inside the raster, unmasked and equal; its own region id is taken (%d cases)' % n_cases,
+            f.node.lineno, None if und else not [b_ for b_ in bad if 'merges []' in b_ or True] or not bad,
+            'for every neighbour direction the domain guard, the mask read, the value comparison and the region-id read must refer '
+            'to the same neighbour, diagonal ones only with 8-connectivity; %s' % (und or '; '.join(bad[:3])))
+    rep.add('G2', f, entry, 'no match: fresh id = counter + 1; one match: its id; two: the lower id and a merge of the pair', f.node.lineno,
+            None if und else not bad, 'a pixel with no matching neighbour starts a new region, with one it joins that region, with two '
+            'different regions it takes the lower id and the pair is merged; %s' % (und or '; '.join(bad[:2])))
+    # ---- G2 bookkeeping that is not per-pixel
     t = {T(s) for s in f.own_nodes() if isinstance(s, (ast.Assign, ast.AugAssign))}
-    ok = 'regions=np.zeros_like(values,dtype=_regions_dtype)' in t and 'max_region=np.iinfo(_regions_dtype).max' in t
     dt = m.assigns.get('_regions_dtype', [])
     okdt = len(dt) == 1 and T(dt[0]) in ('np.uint32', 'np.uint64', 'np.int64')
-    rep.add('G2', f, entry, 'region ids in fixed dtype %s with overflow bound' % (T(dt[0]) if dt else None), f.node.lineno, ok and okdt,
+    okalloc = isinstance(regions.dtype, str) and regions.dtype.replace(' ', '') == '_regions_dtype'
+    rep.add('G2', f, entry, 'region ids in fixed dtype %s' % (T(dt[0]) if dt else None), f.node.lineno, okalloc and okdt,
             'the region counter must live in a fixed wide integer dtype, independent of the raster dtype')
-    ovf = [n for n in f.own_nodes() if isinstance(n, ast.If) and T(n.test) == 'region==max_region' and any(isinstance(x, ast.Raise) for x in n.body)]
-    ok = len(ovf) == 1 and 'region+=1' in t and 'regions[ij]=region' in t and 'region=0' in t
-    rep.add('G2', f, entry, 'fresh id: overflow check, region += 1, regions[ij] = region', f.node.lineno, ok,
+    # overflow: the fresh-id store is guarded by counter != max of that dtype, with a raise on the other path
+    okov = bool(k.raises) and any('iinfo(_regions_dtype).max' in repr(a) for a in opaque)
+    rep.add('G2', f, entry, 'running out of ids raises', f.node.lineno, okov,
             'a pixel with no matching neighbour starts a new region; running out of ids must raise, not wrap')
-    ok = 'lower_region,upper_region=_min_and_max(region_W,region_S)' in t and 'regions[ij]=lower_region' in t and \
-        'region_lookup=_merge_regions(region_lookup,lower_region,upper_region)' in t and \
-        any(isinstance(n, ast.If) and T(n.test) == 'lower_region!=upper_region' for n in f.own_nodes()) and \
-        any(isinstance(n, ast.If) and T(n.test) == 'matches_Wandmatches_S' for n in f.own_nodes())
-    rep.add('G2', f, entry, 'two matching neighbours: keep the lower id and merge the pair', f.node.lineno, ok, '')
-    ok = 'regions[ij]=region_W' in t and 'regions[ij]=region_S' in t and 'regions[ij]=0' in t
-    rep.add('G2', f, entry, 'single matching neighbour copies its id; masked pixels are region 0', f.node.lineno, ok, '')
+    # masked pixels are region 0
+    masked0 = any(isinstance(st.value, Rat) and st.value == Rat.const(0) and st.guards for st in sts)
+    rep.add('G2', f, entry, 'masked pixels are region 0', f.node.lineno, masked0 or regions.init == 'zeros', '')
     ok = 'regions[ij]=region_lookup[regions[ij]]' in t and 'new_region_lookup[i]=new_region_lookup[target]' in t and \
         'new_region_lookup[i]=new_region' in t
     rep.add('G2', f, entry, 'final lookup applied to every pixel', f.node.lineno, ok, '')
     mm = m.funcs.get('_min_and_max')
     if mm is not None:
-        k = interpret(prog, mm)
-        ok = len(k.returns) == 2
-        rep.add('G2', mm, entry, '_min_and_max returns (min, max)', mm.node.lineno,
-                ok and T(mm.node.body[0].test) == 'value0<value1' and T(mm.node.body[0].body[0]) in ('return(value0,value1)', 'returnvalue0,value1')
-                and T(mm.node.body[0].orelse[0]) in ('return(value1,value0)', 'returnvalue1,value0'), '')
+        km = interpret(prog, mm)
+        try:
+            a_, b_ = Sym(mm.params[0]), Sym(mm.params[1])
+            res = []
+            for x, y in ((3, 5), (5, 3), (4, 4)):
+                for v, g in km.returns:
+                    if all(eval_cond_full(c, {a_: Fr(x), b_: Fr(y)}) for c in g):
+                        res.append(tuple(int(evaluate(i if isinstance(i, Rat) else Rat.sym(i[1]), {a_: Fr(x), b_: Fr(y)})) for i in v.items))
+                        break
+            okmm = res == [(3, 5), (3, 5), (4, 4)]
+        except (CannotEvaluate, AttributeError):
+            okmm = None
+        rep.add('G2', mm, entry, '_min_and_max returns (min, max)', mm.node.lineno, okmm, 'got %s' % (res if okmm is not None else '?'))
+
+
+def _single(r):
+    if isinstance(r, Rat) and r.d.is_const() and len(r.n.t) == 1:
+        (mm, c), = r.n.t.items()
+        if len(mm) == 1 and mm[0][1] == 1 and isinstance(mm[0][0], App) and c == r.d.const_value():
+            return mm[0][0]
+    return None
 
 
 def check_scan(prog, rep, m):
@@ -273,7 +369,7 @@ def check(prog, rep):
     check_scan(prog, rep, m)
     check_follow(prog, rep, m)
     check_misc(prog, rep, m)
-    rep.floor('G1', 5)
+    rep.floor('G1', 3)
     rep.floor('G2', 5)
     rep.floor('G3', 4)
     rep.floor('G4', 4)
